@@ -104,6 +104,7 @@ def gen_c10(rng, tier):
     """states of the implementation (image = documented layout of the content read from the object) plus images written in Python
        from the documented layout and read by both readers"""
     cases = [c for c in gen_c09(rng, tier) if c.get('cls') != 'purged-empty']     # (the purged-empty round trip is C09's recorded finding)
+    cases += gen_legacy(rng, tier)
     for ci in range(16 if tier == 'quick' else 120):
         kind = rng.choice([0, 2]); lgcur = rng.choice([3, 4, 5]); lgmax = lgcur + rng.choice([0, 0, 1, 3])
         cap = (1 << lgcur) * 3 // 4
@@ -122,6 +123,35 @@ def gen_c10(rng, tier):
     return cases
 
 REPL = [0x00, 0xFF, 0x7F, 0x80]
+
+LEGACY_EMPTY_FLAGS = [0x01, 0x04, 0x05, 0x03, 0x06, 0x0d, 0x81, 0xf4, 0xff]     # either historical "empty" bit (bit 0: C++, bit 2: Java); other bits ignored
+OTHER_BITS_NONEMPTY = [0x02, 0x08, 0x0a, 0xfa]                                   # neither empty bit: the full form, other bits ignored
+
+def gen_legacy(rng, tier):
+    """hand-written images of older writers: EMPTY images flagged with only one of the two historical empty bits (0x04 Java, 0x01 C++),
+       with both (0x05, current), and with further bits set; non-empty images with stray flag bits; both item types, both readers"""
+    cases = []
+    for kind in (0, 2):
+        for lgmax, lgcur in ((3, 3), (5, 3), (10, 4), (12, 12)):
+            ops = []; exps = []
+            for fl in LEGACY_EMPTY_FLAGS:
+                for unused in ([0, 0], [0xab, 0xcd]):
+                    img = [1, 1, 10, lgmax, lgcur, fl] + unused
+                    for o in (3, 4):
+                        for trail in ([], [9, 9, 9]):
+                            ops.append([o, kind] + img + trail)
+                            exps.append(([1] if o == 3 else [1, 8]) + [lgmax, lgcur, 0, 0, 0])
+            ents = [(5, tuple(item_tokens(kind, 7))), (9, tuple(item_tokens(kind, 8)))]
+            for fl in OTHER_BITS_NONEMPTY:
+                img = py_enc(kind, lgmax, lgcur, 14, 2, ents); img[5] = fl
+                for o in (3, 4):
+                    ops.append([o, kind] + img)
+                    exps.append(([1] if o == 3 else [1, len(img)]) + show_of(dict(lgmax=lgmax, lgcur=lgcur, total=14, offset=2, ents=ents)))
+            # a preamble size that contradicts the flags stays rejected
+            ops.append([3, kind, 4, 1, 10, lgmax, lgcur, 4, 0, 0]); exps.append([-1])
+            ops.append([4, kind, 1, 1, 10, lgmax, lgcur, 2, 0, 0]); exps.append([-1])
+            cases.append(dict(id='filegacy%d_%d_%d' % (kind, lgmax, lgcur), ops=ops, tags=['legacy-empty-flags'], kind='legacy', expects=exps))
+    return cases
 
 def gen_c11(rng, tier):
     cases = []
@@ -217,6 +247,12 @@ def oracle(case, irecs, mrecs):
                     fails.append(dict(sig='fi_continuation_diverges', what='after the same updates the original and the restored sketch differ: %s... vs %s...' % (R[1:9], R[k + 1:k + 9]), op_index=i))
             elif not purged_empty:
                 fails.append(dict(sig='fi_continuation_diverges', what='continuation refused: %s' % R[:3], op_index=i))
+    if case.get('kind') == 'legacy':
+        for i, op in enumerate(case['ops']):
+            if i >= len(irecs): break
+            if irecs[i]['R'] != case['expects'][i]:
+                fails.append(dict(sig='fi_legacy_flags_image', what='an image as written by an older release (flags byte 0x%02x, %s reader) is not read as documented: got %s... want %s...'
+                                  % (op[7], 'bytes' if op[0] == 3 else 'stream', irecs[i]['R'][:7], case['expects'][i][:7]), op_index=i))
     if case.get('kind') == 'doc':
         for i, op in enumerate(case['ops']):
             if i >= len(irecs): break
@@ -239,7 +275,9 @@ RULE_C09 = ('frequent_items_sketch<uint64_t,uint64_t> and <std::string,int64_t>,
             'reader and with the content read from the object; the restored sketch re-serialized (same image up to the order of the counters) and continued with 3..120 further updates '
             'next to the original (same content); non-trivial = every case')
 RULE_C10 = RULE_C09 + ('; the image of every state must equal a Python encoder written from the documented layout applied to the content the API reports (iterator order); plus images '
-                       'written in Python from the documented layout (arbitrary totals and offsets up to the type maximum, string and integer items) read by both readers')
+                       'written in Python from the documented layout (arbitrary totals and offsets up to the type maximum, string and integer items) read by both readers; '
+                       'hand-written images of older writers: empty images flagged 0x01 (historical C++), 0x04 (historical Java), 0x05 and with further flag bits / '
+                       'non-zero unused bytes, non-empty images with stray flag bits, for both item types and both readers (verdict and content against the Coq reader)')
 RULE_C11 = ('every strict prefix of the images of empty / single / exact / estimation-mode / purged-empty sketches on both reader paths (must be rejected; the Coq reader must agree), every '
             'byte of the preamble (8 or 32 bytes) replaced by 0x00/0xFF/0x7F/0x80 and small values with the Coq reader predicting accept/reject and the decoded content of both readers; '
             'replacements that make the stream reader allocate count*8 bytes up front, or a reader build a table of more than 2^12 slots, are left to the serde family (recorded findings); an '
